@@ -227,4 +227,147 @@ VARIANTS = [
     dict(property="C03", name="revert-fix-saturating-cast", revert_commit="b9378cf", expect="cast-covers-sum"),
     dict(property="C07", name="revert-fix-integer-blocks", revert_commit="b87f89a", expect="R-C07-exact"),
     dict(property="C07", name="revert-fix-f64-needed", revert_commit="778de30", expect="R-C07-exact/asynchro_fast.rs"),
+    # ---------------- C01
+    dict(property="C01", name="sinc-cubic-coefficient", file=SINC, expect="interp_cubic", old="let a2 = T::coerce(0.5) * (yvals[0] + yvals[2]) - yvals[1];", new="let a2 = T::coerce(0.5) * (yvals[0] + yvals[2]) - T::coerce(0.5) * yvals[1];"),
+    dict(property="C01", name="nearest4-range-shifted", file=INTERP, expect="get_nearest_times_4", old="for (idx, sub) in (-1..3).enumerate() {", new="for (idx, sub) in (0..4).enumerate() {"),
+    dict(property="C01", name="table-reversed", file=SINCRS, expect="make_sincs/orientation", old="sincs[factor - n - 1][p] = y[factor * p + n] / sum;", new="sincs[n][p] = y[factor * p + n] / sum;"),
+    dict(property="C01", name="sinc-centre-shifted", file=SINCRS, expect="make_sincs/centre", old="(T::coerce(x) - T::coerce(totpoints / 2))", new="(T::coerce(x) - T::coerce(totpoints / 2 + 1))"),
+    dict(property="C01", name="fo-linear-uses-wrong-subindex", file=SINC, expect="R-C01-siblings", count=1,
+         old="""                    get_nearest_times_2(idx, oversampling_factor as isize, &mut nearest);
+                    let frac = idx * oversampling_factor as f64
+                        - (idx * oversampling_factor as f64).floor();
+                    let frac_offset = T::coerce(frac);
+                    for (chan, active) in self.channel_mask.iter().enumerate() {
+                        if *active {
+                            let buf = &self.buffer[chan];
+                            for (n, p) in nearest.iter().zip(points.iter_mut()) {
+                                *p = self.interpolator.get_sinc_interpolated(
+                                    buf,
+                                    (n.0 + 2 * sinc_len as isize) as usize,
+                                    n.1 as usize,
+                                );
+                            }
+                            wave_out[chan].as_mut()[frame] = interp_lin(frac_offset, &points);""",
+         new="""                    get_nearest_times_2(idx, oversampling_factor as isize, &mut nearest);
+                    let frac = idx * oversampling_factor as f64
+                        - (idx * oversampling_factor as f64).floor();
+                    let frac_offset = T::coerce(frac);
+                    for (chan, active) in self.channel_mask.iter().enumerate() {
+                        if *active {
+                            let buf = &self.buffer[chan];
+                            for (n, p) in nearest.iter().zip(points.iter_mut()) {
+                                *p = self.interpolator.get_sinc_interpolated(
+                                    buf,
+                                    (n.0 + 2 * sinc_len as isize) as usize,
+                                    nearest[0].1 as usize,
+                                );
+                            }
+                            wave_out[chan].as_mut()[frame] = interp_lin(frac_offset, &points);"""),
+    dict(property="C01", name="overlap-from-first-half", file=SYN, expect="resample_unit/overlap", old="overlap.copy_from_slice(&self.output_buf[self.fft_size_out..]);", new="overlap.copy_from_slice(&self.output_buf[..self.fft_size_out]);"),
+    dict(property="C01", name="fft-filter-scale", file=SYN, expect="FftResampler::new/scale", old="*f = sinc[0][n] / T::coerce(2 * fft_size_in);", new="*f = sinc[0][n] / T::coerce(fft_size_in);"),
+    dict(property="C01", name="cutoff-lowered-upsampling", file=SINC, expect="R-C01-cutoff-lower", old="    let f_cutoff = if resample_ratio >= 1.0 {\n        f_cutoff\n    } else {", new="    let f_cutoff = if resample_ratio >= 1.0 {\n        f_cutoff * 0.9\n    } else {"),
+    # ---------------- C02
+    dict(property="C02", name="cutoff-not-scaled", file=SINC, expect="R-C02-cutoff-upper", old="        f_cutoff * resample_ratio as f32\n    };", new="        f_cutoff\n    };"),
+    dict(property="C02", name="hann2-not-squared", file=WIN, expect="squared", old="WindowFunction::Blackman2 | WindowFunction::BlackmanHarris2 | WindowFunction::Hann2 => {", new="WindowFunction::Blackman2 | WindowFunction::BlackmanHarris2 => {"),
+    dict(property="C02", name="blackman-uses-hann", file=WIN, expect="base/Blackman", old="WindowFunction::Blackman | WindowFunction::Blackman2 => blackman::<T>(npoints),\n        WindowFunction::Hann | WindowFunction::Hann2 => hann::<T>(npoints),",
+         new="WindowFunction::Hann | WindowFunction::Hann2 | WindowFunction::Blackman | WindowFunction::Blackman2 => hann::<T>(npoints),"),
+    dict(property="C02", name="blackman-harris-coefficient", file=WIN, expect="def/blackman_harris", old="let c = T::coerce(0.14128);", new="let c = T::coerce(0.14182);"),
+    dict(property="C02", name="fft-cutoff-not-scaled", file=SYN, expect="FftResampler::new/cutoff", old="calculate_cutoff::<f32>(fft_size_out, WindowFunction::BlackmanHarris2)\n                * fft_size_out as f32\n                / fft_size_in as f32", new="calculate_cutoff::<f32>(fft_size_out, WindowFunction::BlackmanHarris2)"),
+    dict(property="C02", name="fft-keeps-too-many-bins", file=SYN, expect="truncation", old="        } else {\n            self.fft_size_out\n        };", new="        } else {\n            self.fft_size_out + 1\n        };"),
+    # ---------------- C04
+    dict(property="C04", name="fi-returns-chunk-not-counter", file=FAST, expect="R-C04-counter", old="        Ok((self.chunk_size, n))", new="        Ok((self.chunk_size, needed_len))"),
+    dict(property="C04", name="fo-returns-new-needed", file=SINC, expect="SincFixedOut/input", old="        Ok((input_frames_used, self.chunk_size))", new="        Ok((self.needed_input_size, self.chunk_size))"),
+    dict(property="C04", name="max-reads-current-chunk", file=SINC, expect="R-C04-max-const", old="    fn input_frames_max(&self) -> usize {\n        self.max_chunk_size\n    }", new="    fn input_frames_max(&self) -> usize {\n        self.chunk_size\n    }"),
+    dict(property="C04", name="validate-with-smaller-output", file=FAST, expect="FastFixedIn/output", old="            self.chunk_size,\n            needed_len,\n        )?;", new="            self.chunk_size,\n            needed_len - 10,\n        )?;"),
+    dict(property="C04", name="fft-fi-reads-fft-size", file=SYN, expect="FftFixedIn/input", old="                        .skip(self.saved_frames)\n                        .take(self.chunk_size_in),", new="                        .skip(self.saved_frames)\n                        .take(self.fft_size_in),"),
+    # ---------------- C07
+    dict(property="C07", name="gcd-dropped-from-out-size", file=SYN, expect="FftFixedOut/identity", old="        let fft_size_out = fft_chunks * sample_rate_output / gcd;\n        let fft_size_in = fft_chunks * sample_rate_input / gcd;\n\n        let resampler = FftResampler::<T>::new(fft_size_in, fft_size_out);\n\n        debug!(",
+         new="        let fft_size_out = fft_chunks * min_chunk_out;\n        let fft_size_in = fft_chunks * (sample_rate_input / gcd + 1);\n\n        let resampler = FftResampler::<T>::new(fft_size_in, fft_size_out);\n\n        debug!("),
+    dict(property="C07", name="chunks-floor-instead-of-ceil", file=SYN, expect="FftFixedInOut/multiplier", old="let fft_chunks = div_ceil(chunk_size_in, min_chunk_in);\n        let fft_size_out = fft_chunks * sample_rate_output / gcd;\n        let fft_size_in = fft_chunks * sample_rate_input / gcd;\n\n        let resampler = FftResampler::<T>::new(fft_size_in, fft_size_out);\n\n        let overlaps",
+         new="let fft_chunks = div_floor(chunk_size_in, min_chunk_in) + 1;\n        let fft_size_out = fft_chunks * sample_rate_output / gcd;\n        let fft_size_in = fft_chunks * sample_rate_input / gcd;\n\n        let resampler = FftResampler::<T>::new(fft_size_in, fft_size_out);\n\n        let overlaps"),
+    dict(property="C07", name="div-ceil-off-by-one", file=SYN, expect="synchro::div_ceil", old="numerator / denominator + usize::from(numerator % denominator != 0)", new="numerator / denominator + 1"),
+    dict(property="C07", name="last-index-restarted", file=FAST, expect="R-C07-carry", old="        self.last_index = idx - self.current_buffer_fill as f64;", new="        self.last_index = (idx - self.current_buffer_fill as f64).floor();\n        self.last_index = -(POLYNOMIAL_LEN_I as f64);"),
+    # ---------------- C11
+    dict(property="C11", name="load-ignores-mask", file=SYN, expect="R-C11-guard/FftFixedIn", old="""        // Copy new samples to input buffer.
+        for (chan, active) in self.channel_mask.iter().enumerate() {
+            if *active {
+                for (input, buffer) in wave_in[chan].as_ref().iter().zip(
+                    self.input_buffers[chan]
+                        .iter_mut()
+                        .skip(self.saved_frames)
+                        .take(self.chunk_size_in),
+                ) {
+                    *buffer = *input;
+                }
+            }
+        }""", new="""        // Copy new samples to input buffer.
+        for (chan, wave) in wave_in.iter().enumerate() {
+            for (input, buffer) in wave.as_ref().iter().zip(
+                self.input_buffers[chan]
+                    .iter_mut()
+                    .skip(self.saved_frames)
+                    .take(self.chunk_size_in),
+            ) {
+                *buffer = *input;
+            }
+        }"""),
+    dict(property="C11", name="reads-channel-zero", file=SINC, expect="R-C11-index/SincFixedOut", count=1, old="""            SincInterpolationType::Nearest => {
+                let mut point;
+                let mut nearest;
+                for frame in 0..self.chunk_size {
+                    t_ratio += t_ratio_increment;
+                    idx += t_ratio;
+                    nearest = get_nearest_time(idx, oversampling_factor as isize);
+                    for (chan, active) in self.channel_mask.iter().enumerate() {
+                        if *active {
+                            let buf = &self.buffer[chan];""", new="""            SincInterpolationType::Nearest => {
+                let mut point;
+                let mut nearest;
+                for frame in 0..self.chunk_size {
+                    t_ratio += t_ratio_increment;
+                    idx += t_ratio;
+                    nearest = get_nearest_time(idx, oversampling_factor as isize);
+                    for (chan, active) in self.channel_mask.iter().enumerate() {
+                        if *active {
+                            let buf = &self.buffer[0];"""),
+    dict(property="C11", name="counter-inside-channel-loop", file=FAST, expect="R-C11-count", count=1, old="""                                    .get_unchecked_mut(n) = interp_lin(frac_offset, buf);
+                            }
+                        }
+                    }
+                    n += 1;""", new="""                                    .get_unchecked_mut(n) = interp_lin(frac_offset, buf);
+                            }
+                            n += 1;
+                        }
+                    }"""),
+    dict(property="C11", name="fft-padding-not-cleared", file=SYN, expect="R-C11-scratch", old="        for item in self\n            .input_buf\n            .iter_mut()\n            .skip(self.fft_size_in)\n            .take(self.fft_size_in)\n        {\n            *item = T::zero();\n        }\n", new=""),
+    dict(property="C11", name="validate-inspects-masked-channel", file=LIB, expect="validate_buffers", old="    for (chan, wave_in) in wave_in.iter().enumerate().filter(|(chan, _)| mask[*chan]) {", new="    for (chan, wave_in) in wave_in.iter().enumerate() {"),
+    # ---------------- C14
+    dict(property="C14", name="fast-delay-full-length", file=FAST, count=2, expect="FastFixed", old="(POLYNOMIAL_LEN_U as f64 * self.resample_ratio / 2.0) as usize", new="(POLYNOMIAL_LEN_U as f64 * self.resample_ratio) as usize"),
+    dict(property="C14", name="fft-delay-uses-input-size", file=SYN, count=2, expect="::output_delay", old="        self.fft_size_out / 2\n", new="        self.fft_size_in / 2\n"),
+    dict(property="C14", name="fast-start-position-changed", file=FAST, expect="FastFixedIn::output_delay", old="            last_index: -(POLYNOMIAL_LEN_I / 2) as f64,\n            resample_ratio,\n            resample_ratio_original: resample_ratio,\n            target_ratio: resample_ratio,\n            max_relative_ratio: max_resample_ratio_relative,\n            buffer,\n            interpolation: interpolation_type,\n            channel_mask,\n        })\n    }\n}\n\nimpl<T> Resampler<T> for FastFixedIn<T>",
+         new="            last_index: -(POLYNOMIAL_LEN_I) as f64,\n            resample_ratio,\n            resample_ratio_original: resample_ratio,\n            target_ratio: resample_ratio,\n            max_relative_ratio: max_resample_ratio_relative,\n            buffer,\n            interpolation: interpolation_type,\n            channel_mask,\n        })\n    }\n}\n\nimpl<T> Resampler<T> for FastFixedIn<T>"),
+    # ---------------- C16
+    dict(property="C16", name="vec-forwards-max-to-next", file=LIB, expect="input_frames_max", old="            fn input_frames_max(&self) -> usize {\n                rubato::Resampler::input_frames_max(self)", new="            fn input_frames_max(&self) -> usize {\n                rubato::Resampler::input_frames_next(self)"),
+    dict(property="C16", name="vec-swaps-ramp-args", file=LIB, expect="set_resample_ratio", old="                rubato::Resampler::set_resample_ratio(self, new_ratio, ramp)", new="                rubato::Resampler::set_resample_ratio(self, new_ratio, !ramp)"),
+    dict(property="C16", name="process-sizes-by-input", file=LIB, expect="Resampler::process/sizes", old="        let frames = self.output_frames_next();\n        let channels = self.nbr_channels();\n        let mut wave_out = Vec::with_capacity(channels);\n        for chan in 0..channels {\n            let chan_out = if active_channels_mask\n                .and_then(|mask| mask.get(chan).copied())\n                .unwrap_or(true)\n            {\n                vec![T::zero(); frames]\n            } else {\n                vec![]\n            };\n            wave_out.push(chan_out);\n        }\n        let (_, out_len) =\n            self.process_into_buffer(",
+         new="        let frames = self.input_frames_next() * 2;\n        let channels = self.nbr_channels();\n        let mut wave_out = Vec::with_capacity(channels);\n        for chan in 0..channels {\n            let chan_out = if active_channels_mask\n                .and_then(|mask| mask.get(chan).copied())\n                .unwrap_or(true)\n            {\n                vec![T::zero(); frames]\n            } else {\n                vec![]\n            };\n            wave_out.push(chan_out);\n        }\n        let (_, out_len) =\n            self.process_into_buffer("),
+    dict(property="C16", name="partial-pads-to-max", file=LIB, expect="R-C16-partial", old="        let frames = self.input_frames_next();\n        let mut wave_in_padded", new="        let frames = self.input_frames_max();\n        let mut wave_in_padded"),
+    dict(property="C16", name="process-no-truncate", file=LIB, expect="truncate", count=2, old="            chan_out.truncate(out_len);", new="            let _ = out_len;"),
+    # ---------------- C17
+    dict(property="C17", name="sample-compare-in-process", file=SYN, expect="R-C17-noninterference", old="        for (n, item) in wave_out.iter_mut().enumerate().take(self.fft_size_out) {\n            *item = self.output_buf[n] + overlap[n];\n        }",
+         new="        for (n, item) in wave_out.iter_mut().enumerate().take(self.fft_size_out) {\n            *item = self.output_buf[n] + overlap[n];\n            if *item == T::zero() {\n                break;\n            }\n        }"),
+    dict(property="C17", name="slice-equality-shortcut", file=FAST, expect="R-C17-noninterference", old="        for (chan, wave_in) in wave_in\n            .iter()\n            .enumerate()\n            .filter(|(chan, _)| self.channel_mask[*chan])\n        {\n            debug_assert!(self.chunk_size <= wave_out[chan].as_mut().len());",
+         new="        for (chan, wave_in) in wave_in\n            .iter()\n            .enumerate()\n            .filter(|(chan, _)| self.channel_mask[*chan])\n        {\n            if wave_in.as_ref()[..self.needed_input_size] == self.buffer[chan][..self.needed_input_size] {\n                continue;\n            }\n            debug_assert!(self.chunk_size <= wave_out[chan].as_mut().len());"),
+    # ---------------- C18
+    dict(property="C18", name="global-call-counter", file=SINC, expect="R-C18-statics",
+         edits=[("fn validate_ratios(\n    resample_ratio: f64,", "static CALLS: std::sync::atomic::AtomicUsize = std::sync::atomic::AtomicUsize::new(0);\n\nfn validate_ratios(\n    resample_ratio: f64,"),
+                ("        let mut idx = self.last_index;\n\n        let mut n = 0;", "        let mut idx = self.last_index;\n        if CALLS.fetch_add(1, std::sync::atomic::Ordering::Relaxed) % 1000 == 999 {\n            idx += 0.0;\n        }\n\n        let mut n = 0;")]),
+    dict(property="C18", name="thread-local-scratch", file=FAST, expect="R-C18-statics",
+         edits=[("const POLYNOMIAL_LEN_U: usize = 8;", "const POLYNOMIAL_LEN_U: usize = 8;\nthread_local! { static LAST_FRAC: std::cell::Cell<f64> = std::cell::Cell::new(0.0); }"),
+                ("        let mut idx = self.last_index;\n\n        let mut n = 0;", "        let mut idx = self.last_index + LAST_FRAC.with(|c| c.get()) * 0.0;\n        LAST_FRAC.with(|c| c.set(idx));\n\n        let mut n = 0;")]),
+    dict(property="C18", name="shared-rc-field", file=SYN, expect="R-C18-ownership",
+         edits=[("    saved_frames: usize,\n    resampler: FftResampler<T>,\n}\n\n/// A synchronous resampler that needs a varying", "    saved_frames: usize,\n    resampler: FftResampler<T>,\n    shared: std::sync::Arc<std::sync::Mutex<usize>>,\n}\n\n/// A synchronous resampler that needs a varying"),
+                ("            saved_frames,\n            resampler,\n            channel_mask,\n        })\n    }\n}\n\nimpl<T> Resampler<T> for FftFixedIn<T>", "            saved_frames,\n            resampler,\n            channel_mask,\n            shared: std::sync::Arc::new(std::sync::Mutex::new(0)),\n        })\n    }\n}\n\nimpl<T> Resampler<T> for FftFixedIn<T>")]),
+    dict(property="C18", name="address-dependent-branch", file=SINC, expect="R-C18-ambient",
+         old="        let mut idx = self.last_index;\n\n        let mut n = 0;", new="        let mut idx = self.last_index;\n        if (self.buffer.as_ptr() as usize) % 64 == 0 {\n            idx += 0.0;\n        }\n\n        let mut n = 0;"),
 ]
